@@ -28,7 +28,8 @@
 (*             auxiliaries from vd_aux/vn_aux linked by vda_next/vna_next   *)
 (*                                                                         *)
 (* The abstract file is a VALID file of the walker's kind plus at most      *)
-(* MaxFaults field corruptions (the same `fault plan` idea as Faults.tla):  *)
+(* MaxFaults field corruptions (2 in files of more than SmallN units; the   *)
+(* same `fault plan` idea as Faults.tla):                                  *)
 (* a fault sets one field to a value class                                 *)
 (*   zero 0, one 1, entm1 (one record minus one unit), fsize n, fsize1 n+1, *)
 (*   hi / ones  - "far beyond everything" (2^31, 2^63 / 2^32-1, 2^64-1):    *)
